@@ -286,14 +286,14 @@ func runC14(c *Ctx) {
 	c.Rule("C14.E2", "EXHAUSTIVE", "every field an EncodeRLP reads from its receiver (for carrier structs: every rlp-visible field of the type) is assigned by the matching DecodeRLP, unless tabled as derived/not transmitted")
 	c.Min(12)
 	tabled := map[string]string{
-		"Receipt.Logs":              "decoded through the storage/consensus carrier and assigned below via the receiptRLP struct",
-		"Block.header":              "", // handled: stores to b.header
-		"Transaction.data":          "",
-		"Transaction.size":          "cache of the encoded size, set by the decoder",
-		"Detail.RewardsPayload":     "transport-only scratch field: the encoder fills it from Rewards, the decoder restores Rewards from it",
-		"Detail.InnerTxPayload":     "transport-only scratch field: the encoder fills it from InnerTxs, the decoder restores InnerTxs from it",
-		"Validator.deleted":         "in-memory flag, never transmitted",
-		"Validator.consAddr":        "cache of the derived address",
+		"Receipt.Logs":          "decoded through the storage/consensus carrier and assigned below via the receiptRLP struct",
+		"Block.header":          "", // handled: stores to b.header
+		"Transaction.data":      "",
+		"Transaction.size":      "cache of the encoded size, set by the decoder",
+		"Detail.RewardsPayload": "transport-only scratch field: the encoder fills it from Rewards, the decoder restores Rewards from it",
+		"Detail.InnerTxPayload": "transport-only scratch field: the encoder fills it from InnerTxs, the decoder restores InnerTxs from it",
+		"Validator.deleted":     "in-memory flag, never transmitted",
+		"Validator.consAddr":    "cache of the derived address",
 	}
 	_ = tabled
 	for _, x := range e2 {
@@ -496,25 +496,25 @@ func c14E5(c *Ctx, w *World) {
 	c.Check(fname(kf)+"#bounds-size-by-remaining-input", kf.Pos(), enforces, ifelse(enforces, "size > remaining input fails with ErrValueTooLarge", "Kind() no longer rejects sizes larger than the remaining input"))
 	// unlimited streams outside rlp
 	tabled := map[string]string{
-		"consensus/ucon.ReadVoteData":                    "bytes.Reader over a database value",
-		"core/rawdb.ReadHeader":                          "bytes.Reader over a database value",
-		"core/rawdb.ReadBody":                            "bytes.Reader over a database value",
-		"core.decodePrealloc":                            "strings.Reader over a compiled-in genesis allocation",
-		"core.decodeValidatorPrealloc":                   "strings.Reader over a compiled-in genesis allocation",
-		"core/state.NewStateSync":                        "bytes.Reader over a trie leaf",
-		"(core/state.NodeIterator).step":                 "bytes.Reader over a trie leaf",
-		"(core.txJournal).load":                          "the node's own transaction journal file",
-		"p2p/nat/check.decodePacket":                     "bytes.Reader over a UDP datagram (bounded by the datagram size)",
-		"p2p/discover.decodePacket":                      "bytes.Reader over a UDP datagram (bounded by the datagram size)",
-		"(p2p.rlpx).doProtoHandshake":                    "",
-		"p2p.readProtocolHandshake":                      "Payload is a bytes.Reader over a size-checked frame",
-		"(p2p.rlpxFrameRW).ReadMsg":                      "bytes.Reader over a size-checked frame",
-		"(p2p.handshakeMsgDecoder)":                      "",
-		"(p2p.Peer).handle":                              "Payload is a bytes.Reader over a size-checked frame",
-		"(p2p.rlpx).close":                               "",
-		"p2p.readHandshakeMsg":                           "bytes.Reader over a handshake packet whose size prefix was checked",
-		"(p2p/enr.Record).DecodeRLP":                     "bytes.Reader over a record whose raw size was checked against SizeLimit",
-		"p2p/enr.decodeRecord":                           "bytes.Reader over a record whose raw size was checked against SizeLimit",
+		"consensus/ucon.ReadVoteData":    "bytes.Reader over a database value",
+		"core/rawdb.ReadHeader":          "bytes.Reader over a database value",
+		"core/rawdb.ReadBody":            "bytes.Reader over a database value",
+		"core.decodePrealloc":            "strings.Reader over a compiled-in genesis allocation",
+		"core.decodeValidatorPrealloc":   "strings.Reader over a compiled-in genesis allocation",
+		"core/state.NewStateSync":        "bytes.Reader over a trie leaf",
+		"(core/state.NodeIterator).step": "bytes.Reader over a trie leaf",
+		"(core.txJournal).load":          "the node's own transaction journal file",
+		"p2p/nat/check.decodePacket":     "bytes.Reader over a UDP datagram (bounded by the datagram size)",
+		"p2p/discover.decodePacket":      "bytes.Reader over a UDP datagram (bounded by the datagram size)",
+		"(p2p.rlpx).doProtoHandshake":    "",
+		"p2p.readProtocolHandshake":      "Payload is a bytes.Reader over a size-checked frame",
+		"(p2p.rlpxFrameRW).ReadMsg":      "bytes.Reader over a size-checked frame",
+		"(p2p.handshakeMsgDecoder)":      "",
+		"(p2p.Peer).handle":              "Payload is a bytes.Reader over a size-checked frame",
+		"(p2p.rlpx).close":               "",
+		"p2p.readHandshakeMsg":           "bytes.Reader over a handshake packet whose size prefix was checked",
+		"(p2p/enr.Record).DecodeRLP":     "bytes.Reader over a record whose raw size was checked against SizeLimit",
+		"p2p/enr.decodeRecord":           "bytes.Reader over a record whose raw size was checked against SizeLimit",
 	}
 	newStream := w.FuncObj("rlp", "", "NewStream")
 	decode := w.FuncObj("rlp", "", "Decode")
